@@ -223,10 +223,11 @@ def observe_all(modname, cases, jobs):
     """Run mod.observe(case) for every case (real implementation + real reference) in a pool."""
     if not cases:
         return []
-    n = max(1, min(jobs, len(cases) // 50 + 1))
+    heavy = getattr(importlib.import_module(modname), "HEAVY", False)
+    n = max(1, min(jobs, len(cases) if heavy else len(cases) // 50 + 1))
     if n == 1:
         return _impl_worker((modname, cases))
-    size = (len(cases) + n * 4 - 1) // (n * 4)
+    size = 1 if heavy else (len(cases) + n * 4 - 1) // (n * 4)
     chunks = [cases[i:i + size] for i in range(0, len(cases), size)]
     with cf.ProcessPoolExecutor(max_workers=n) as pool:
         results = list(pool.map(_impl_worker, [(modname, c) for c in chunks]))
